@@ -40,6 +40,7 @@ const (
 	OpCopy
 	OpSub
 	OpForward
+	OpHijack
 )
 
 // Op is one step of a handler script.
@@ -102,6 +103,8 @@ func (o Op) String() string {
 		return fmt.Sprintf("SubRequest(%s %q)", o.S, o.S2)
 	case OpForward:
 		return fmt.Sprintf("Forward(%q)", o.S2)
+	case OpHijack:
+		return "Hijack"
 	}
 	return "?"
 }
@@ -304,6 +307,12 @@ func Run(s *Script, c Ctx, tr *Trace) {
 			c.CopyForLater()
 		case OpSub:
 			tr.Add("  %s nested request %s %q ->\n%s", s.Name, o.S, o.S2, indent(c.Sub(o.S, o.S2)))
+		case OpHijack:
+			// take over the connection (websocket upgrade ...): from now on the router must not touch the header
+			if hj, ok := c.Resp().(http.Hijacker); ok {
+				_, _, err := hj.Hijack()
+				tr.Add("  %s hijacks err=%v", s.Name, err != nil)
+			}
 		case OpForward:
 			tr.Add("  %s forwards to %q", s.Name, o.S2)
 			c.Forward(o.S2)
